@@ -365,11 +365,39 @@ def column_kind_agreement(ctx, prog, modfile, tag):
         ctx.fail(o, "(program)", "expected >= 9 ColumnKind arguments at the %s column sites, found %d" % (tag, n))
 
 
+REORDER = re.compile(r"::(sort_unstable|sort_unstable_by|sort_unstable_by_key|select_nth_unstable\w*|reverse|swap|swap_remove|rotate_left|rotate_right|dedup\w*|sort_by_cached_key)$|Iterator::rev$")
+
+
+def operation_order(ctx, prog, modfile, tag):
+    """A batch is a *sequence*: later operations on a key override earlier ones.  The store applies them in the order it is
+    given, so every stage between the caller and the store has to keep that order (a stable regrouping would be fine; an
+    unstable sort, a reversal or a swap is not)."""
+    o = ctx.ob("C11.f", "%s/batch-operation-order-preserved" % tag, "K3",
+               "no unstable sort / reverse / swap on the operation list of a serialization buffer or write batch")
+    n = 0
+    for b in prog.all_bodies(["qbice_storage"]):
+        if not b.file.endswith("kv_database/%s.rs" % modfile):
+            continue
+        base = re.sub(r"(::\{closure#\d+\})+$", "", b.name)
+        if not re.search(r"(WriteBatch|SerializationBuffer)( as |::)", base):
+            continue
+        n += 1
+        for s_ in b.calls():
+            if REORDER.search(s_.node["fn"]["path"]):
+                ctx.touch(b)
+                ctx.fail(o, s_, "%s reorders batched operations with %s: two operations on one key can be swapped, the store then keeps the older write (or a deleted key)" % (
+                    b.name, short(s_.node["fn"]["path"])))
+    o.sites = n
+    if n < 8:
+        ctx.fail(o, "(program)", "expected >= 8 WriteBatch / SerializationBuffer bodies in %s, found %d" % (modfile, n))
+
+
 def run(ctx):
     prog = ctx.prog
     ctx.run_clause("C11.a", lambda c: backend_rules(c, prog, "Fjall", "Fjall", "fjall", "fjall"))
     ctx.run_clause("C11.b", lambda c: discriminant_table(c, prog))
     ctx.run_clause("C11.d", lambda c: column_kind_agreement(c, prog, "fjall", "fjall"))
+    ctx.run_clause("C11.f", lambda c: operation_order(c, prog, "fjall", "fjall"))
     try:
         rocks = ctx.program("rocks")
     except Exception as e:  # EngineError is reported by the caller
@@ -377,3 +405,4 @@ def run(ctx):
     ctx.run_clause("C11.a", lambda c: backend_rules(c, rocks, "RocksDB", "RocksDB", "rocksdb", "rocksdb"))
     ctx.run_clause("C11.e", lambda c: upper_bound_tight(c, rocks))
     ctx.run_clause("C11.d", lambda c: column_kind_agreement(c, rocks, "rocksdb", "rocksdb"))
+    ctx.run_clause("C11.f", lambda c: operation_order(c, rocks, "rocksdb", "rocksdb"))
